@@ -3,7 +3,7 @@ CANON = True
 
 import ast
 
-from .. import compq, pyq
+from .. import boolfn, compq, pyq
 from ..pysrc import dotted, norm, flat
 
 R, CP, MC = compq.RM, compq.CP, compq.MC
@@ -62,9 +62,17 @@ def check(ctx, src):
     rq = rm.func("compile_require")
     ctx.require(rq is not None, "compile_require not found")
     t = flat(rq)
-    ctx.check("if (rest or not readers) and compiler.is_in_local_state():" in t and "require(module_name, compiler.local_state_stack[-1]['macros'], assignments=assignments, prefix=prefix, compiler=compiler)" in t, "MAC-INSTALL", f"{R}|compile_require|local",
-              "inside a local state require must install into the innermost state", R, rq.lineno, detail="local_state_stack[-1]['macros']")
-    ctx.check("elif (rest or not readers) and require(module_name, compiler.module, assignments=assignments, prefix=prefix, compiler=compiler):" in t, "MAC-INSTALL", f"{R}|compile_require|module", "at module level require installs into the module", R, rq.lineno, detail="compiler.module")
+    # compile-time require calls of compile_require, by their target: innermost local state iff in a local state, else the module
+    rcalls = [c for c in pyq.calls(rq) if dotted(c.func) == "require" and len(c.args) >= 2]
+    loc_calls = [c for c in rcalls if norm(c.args[1]) == "compiler.local_state_stack[-1]['macros']"]
+    mod_calls = [c for c in rcalls if norm(c.args[1]) == "compiler.module"]
+    AT = boolfn.Atoms(L="compiler.is_in_local_state()", R="rest", D="readers")
+    v1, c1 = boolfn.equivalent(loc_calls, rq, AT, lambda e: (e["R"] or not e["D"]) and e["L"])
+    v2, c2 = boolfn.equivalent(mod_calls, rq, AT, lambda e: (e["R"] or not e["D"]) and not e["L"])
+    kwok = all({k.arg: norm(k.value) for k in c.keywords} == {"assignments": "assignments", "prefix": "prefix", "compiler": "compiler"} for c in rcalls) and len(rcalls) == len(loc_calls) + len(mod_calls)
+    ctx.decide("MAC-INSTALL", f"{R}|compile_require|local", None if v1 is None else (v1 and kwok and bool(loc_calls)),
+               f"inside a local state require must install into the innermost state (differs for {c1})", R, rq.lineno, detail="local_state_stack[-1]['macros']")
+    ctx.decide("MAC-INSTALL", f"{R}|compile_require|module", None if v2 is None else (v2 and kwok and bool(mod_calls)), f"at module level require installs into the module (differs for {c2})", R, rq.lineno, detail="compiler.module")
     shape = sorted({rm.qual_of(c) for c in pyq.calls(rm.tree) if dotted(c.func) == "assignment_shape"})
     ctx.check(shape == ["compile_import", "compile_require"], "MAC-INSTALL", f"{R}|assignment_shape users", f"assignment_shape is used by {shape}", R, 0, detail=str(shape))
     rf = mc.func("require")
